@@ -16,7 +16,8 @@
     cut ([sto] gives the ranking and the count to cut at); the second part ([Section ElectionMem])
     is the code as it is: every call is made with the cut [sto_mem mem] = (ranking of the state,
     current in-memory BPCOUNT), and the in-memory value follows system.InitSystemParams (start-up,
-    end of a reorganisation: value stored in the best block's state) and system.CommitParams(true)
+    after reorg.rollback: value of the fork point's state (F41), end of a reorganisation: value
+    stored in the best block's state) and system.CommitParams(true)
     in Status.Update (after AddSnapshot: a change executed in the block becomes active).
     NewStatus reads the BP count after the snapshots are loaded (repair F24, committed).
     A block's state root is abstracted by [sto]: block id -> (vote ranking, BPCOUNT).
@@ -253,8 +254,11 @@ Section ElectionMem.
             (mkMN (mn_self nd) (mn_ms nd) (mn_main nd) store' (mn_saved nd), OVeto)
           else
             let main_r := firstn (Z.to_nat (k_no root) + 1) (mn_main nd) in
+            (* reorg.rollback: Update(root) still runs with the old best block's parameters; then
+               cs.reloadSystemParams() loads those of the fork point's state (fix 3ddb1f18, F41) *)
             let m1 := mstatus_update (main_get main_r) (mn_ms nd) root in
-            let m2 := fold_left (mstatus_update (main_get main_r)) new_blocks m1 in
+            let m1' := mkMS (ms_es m1) (param (k_id root)) in
+            let m2 := fold_left (mstatus_update (main_get main_r)) new_blocks m1' in
             (* chain.reorg ends with system.InitSystemParams(best state) *)
             let m' := mkMS (ms_es m2) (param (k_id blk)) in
             (mkMN (mn_self nd) m' (main_r ++ new_blocks) store' (Some (save (st_ls (es_st (ms_es m'))))), OReorg)
